@@ -69,6 +69,7 @@ type c08Env struct {
 	lastDiff map[string]string
 	pairs    map[uint64]lendtypes.Extended_Pair
 	sampled  map[string]bool
+	panicked bool
 }
 
 func (e *c08Env) log(s string) {
@@ -1175,13 +1176,12 @@ func TestC08(t *testing.T) {
 	rec.Assume("rewards credited to a lend position inside a withdraw / close-lend transaction are read from the module's AllReserveStats.TotalAmountOutToLenders delta")
 }
 
-func c08Run(t *testing.T, rec *ev.Rec, rnd *rand.Rand, run, variant int, liqRun bool, steps int) {
+// c08Setup builds the lend universe on a fresh chain (deterministic given variant).
+func c08Setup(t *testing.T, rec *ev.Rec, rnd *rand.Rand, run, variant int, liqRun bool) *c08Env {
 	c := sim.New(sim.Options{NAccts: 7, Balances: lendBalances()})
-	defer c.Close()
 	e := &c08Env{t: t, c: c, rec: rec, rnd: rnd, run: run, variant: variant, liqRun: liqRun, lastDiff: map[string]string{}, pairs: map[uint64]lendtypes.Extended_Pair{}, sampled: map[string]bool{}}
-	panicked := false
 	c.PanicHook = func(phase string, h int64, r interface{}) {
-		panicked = true
+		e.panicked = true
 		rec.Count("block_panics", 1)
 		rec.Count("block_panics_"+phase+"_"+panicClass(r), 1)
 		if rec.Get("block_panics") <= 3 {
@@ -1193,7 +1193,8 @@ func c08Run(t *testing.T, rec *ev.Rec, rnd *rand.Rand, run, variant int, liqRun 
 	c.NextBlock(6 * time.Second)
 	// liquidity: the funder (account 5) funds pools and the reserve through real transactions
 	funder := c.Accts[5]
-	for pid, p := range e.u.Pools {
+	for _, pid := range c08SortedPools(e.u) {
+		p := e.u.Pools[pid]
 		for _, aid := range p.Assets {
 			a := e.u.Assets[aid]
 			amt := sdk.NewInt(50_000_000_000)
@@ -1218,8 +1219,24 @@ func c08Run(t *testing.T, rec *ev.Rec, rnd *rand.Rand, run, variant int, liqRun 
 			t.Fatalf("harness set-up: price of asset %d not active after a block", id)
 		}
 	}
+	return e
+}
+
+func c08SortedPools(u *lendU) []uint64 {
+	var ids []uint64
+	for id := range u.Pools {
+		ids = append(ids, id)
+	}
+	sort.Slice(ids, func(i, j int) bool { return ids[i] < ids[j] })
+	return ids
+}
+
+func c08Run(t *testing.T, rec *ev.Rec, rnd *rand.Rand, run, variant int, liqRun bool, steps int) {
+	e := c08Setup(t, rec, rnd, run, variant, liqRun)
+	c := e.c
+	defer c.Close()
 	e.checkBooks(e.snap(), "setup", nil)
-	for i := 0; i < steps && !panicked; i++ {
+	for i := 0; i < steps && !e.panicked; i++ {
 		if e.rnd.Intn(100) < 30 {
 			e.blockStep()
 		} else {
